@@ -1,5 +1,5 @@
 (* Props/C07.v — any well-formed third-party disk image is listed and extracted exactly. *)
-Require Import PyBase GenDisk Disk ThomsonDos DiskDefs DiskReadProofs.
+Require Import PyBase GenDisk Disk ThomsonDos DiskDefs DiskReadProofs TapeStateProofs EffectState DiskStateProofs.
 Open Scope Z_scope.
 
 (* for every emulator image of 1, 2 or 4 sides or 4-sided SDDrive image that loads, whose sides
@@ -39,3 +39,33 @@ Theorem C07_side_read_exact : forall sd : side,
       read_file sd e = Ok (d_content f) /\ extracted_name e = dos_label f) es fs.
 Proof. exact list_files_exact. Qed.
 Print Assumptions C07_side_read_exact.
+
+(* from effects to the state of the destination: whatever it held before (fs0 is arbitrary -
+   longer, shorter or other files under the same names, as after an earlier extraction), once the
+   image is extracted every live file of side i is read back with exactly its bytes at
+   side<i>/LABEL, provided no two live files claim one path *)
+Theorem C07_directory_after_extract : forall (is_fd v : bool) (raw : list Z) (img : image) (into : option (list Z)) (arch : list Z) (fs0 : fsmap),
+  load_image is_fd raw = Ok img ->
+  forallb tool_readable img = true -> forallb names_printable img = true ->
+  existsb (Z.eqb 0) (target_of into arch) = false ->
+  exists files : list (list dos_file),
+    map dos_files img = map Some files /\
+    (NoDup (write_paths (d_effects (disk_extract is_fd v into arch raw))) ->
+     forall (i : nat) (fl : list dos_file) (f : dos_file), nth_error files i = Some fl -> In f fl ->
+       fs_read (apply_effects fs0 (d_effects (disk_extract is_fd v into arch raw)))
+               (path_join (side_dir (target_of into arch) i) (dos_label f)) = Some (d_content f)).
+Proof. exact third_party_extract_directory. Qed.
+Print Assumptions C07_directory_after_extract.
+
+(* the premise on paths is met by two files of one side with different names, and the earlier
+   content of the destination plays no role *)
+Example C07_example_overwrite :
+  let f1 := mkDos [65;32;32;32;32;32;32;32] [66;32;32] 1 0 [3] [1;2;3] in
+  let f2 := mkDos [67;32;32;32;32;32;32;32] [68;32;32] 1 0 [4] [] in
+  let es := flat_map (side_effects [100]) (indexed [[f1; f2]]) in
+  NoDup (write_paths es) /\
+  fs_read (apply_effects [(path_join (side_dir [100] 0) (dos_label f2), [9;9;9;9;9;9])] es) (path_join (side_dir [100] 0) (dos_label f2)) = Some [].
+Proof.
+  vm_compute. split; [|reflexivity].
+  repeat constructor; cbn; intuition discriminate.
+Qed.
